@@ -1,6 +1,7 @@
 import Pycoin.Driver.Core
 import Pycoin.Model.HashPy
 import Pycoin.Model.Bloom
+import Pycoin.Model.History
 import Pycoin.Spec.Murmur3
 /-! C19 ops: the Python-style models of contrib/ripemd160.py, bloomfilter.py, encoding/hash.py. -/
 namespace Pycoin.Driver.C19
@@ -58,21 +59,44 @@ def addOne (f : Bloom.Filter) : Item → Except PyErr Bloom.Filter
   | .address b => Bloom.addItem f b      -- `add_address`: `a2b_hashed_base58(address)[1:]` is the 20-byte payload the harness encoded
   | .spendable h i => Bloom.addSpendable f h i
 
-/-- does the peer-side test (all `hash_function_count` bits set) succeed for this element? uses the model's `check_bit` -/
-def matchesPy (f : Bloom.Filter) (b : Bytes) : Except PyErr Bool :=
-  (List.range f.hashFunctionCount.toNat).foldlM (fun acc (k : Nat) => do
-    let h ← Murmur3Py.murmur3 b ((k : Int) * Gen.HashTables.bloomSeedMul + f.tweak)
-    let v ← Bloom.pyMod h f.bitCount
-    pure (acc && (← Bloom.checkBit f v))) true
-
 def bloomOp (size nh tweak : Int) (items : List Item) : Except PyErr String := do
   let f0 ← Bloom.new size nh tweak
   let f ← items.foldlM addOne f0
   let ms ← items.mapM fun it =>
     match it.bytes with
-    | some b => matchesPy f b
+    | some b => Bloom.matchesPy f b
     | none => pure false
   pure (hx f.filterBytes ++ " " ++ (if ms.isEmpty then "~" else String.ofList (ms.map fun b => if b then '1' else '0')))
+
+def parseKind? : String → Option History.Kind
+  | "y" => some .bytes | "a" => some .bytearray | "m" => some .memoryview | _ => none
+
+/-- history steps, `:`-separated fields: `ny:0:<hex>` `na:…` `nm:…` new buffer; `s:0:<hex>` overwrite in place;
+`r:0` `h:0` `d:0` `c:0` `m:0:<seed>` calls; `bn:<size>:<nh>:<tweak>` `ba:0` `bf` `bc:0` Bloom filter -/
+def parseStep? (s : String) : Option History.Step :=
+  match s.splitOn ":" with
+  | [k, i, d] =>
+    if k = "s" then do some (.set (← parseNat? i) (← parseHex? d))
+    else if k = "m" then do some (.murmur (← parseNat? i) (← parseInt? d))
+    else match k.toList with
+      | ['n', c] => do some (.new (← parseNat? i) (← parseKind? (String.singleton c)) (← parseHex? d))
+      | _ => none
+  | ["r", i] => do some (.rmd (← parseNat? i))
+  | ["h", i] => do some (.h160 (← parseNat? i))
+  | ["d", i] => do some (.dsha (← parseNat? i))
+  | ["c", i] => do some (.contrib (← parseNat? i))
+  | ["bn", a, b, c] => do some (.bnew (← parseInt? a) (← parseInt? b) (← parseInt? c))
+  | ["ba", i] => do some (.badd (← parseNat? i))
+  | ["bf"] => some .bfilter
+  | ["bc", i] => do some (.bcontains (← parseNat? i))
+  | _ => none
+
+def showAns : History.Ans → String
+  | .ok .unit => "."
+  | .ok (.bytes b) => hx b
+  | .ok (.int n) => toString n
+  | .ok (.bool b) => showBool b
+  | .error e => "err:" ++ e.tag
 
 def handle : Handler := fun op args =>
   match op, args with
@@ -108,6 +132,10 @@ def handle : Handler := fun op args =>
   | "c19_bloom", [size, nh, tweak, items] => do
     let items ← parseList? parseItem? items
     some (showE (bloomOp (← parseInt? size) (← parseInt? nh) (← parseInt? tweak) items))
+  | "c19_history", [cfg, script] => do
+    let impl ← parseImpl? cfg
+    let steps ← parseList? parseStep? script
+    some ("ok " ++ ";".intercalate ((History.exec (History.implFns impl) History.empty steps).map showAns))
   | _, _ => none
 
 end Pycoin.Driver.C19
